@@ -23,11 +23,17 @@ assert demos, "no demo"
 demo = demos[0]
 env = {"PYTHONPATH": wt}
 r_with = sh("/venv/bin/python %s" % demo, cwd=wt, env=env)
-sh("git stash -q", cwd=wt)
+# NB: `git stash` is shared between worktrees of one repository (refs/stash is per repo): never use it here
+ppath = os.path.join("/tmp", "eval_seed_%d.diff" % os.getpid())
+open(ppath, "w").write(patch)
+sh("git checkout -- cdd", cwd=wt)
 try:
     r_without = sh("/venv/bin/python %s" % demo, cwd=wt, env=env)
 finally:
-    sh("git stash pop -q", cwd=wt)
+    ra = sh("git apply %s" % ppath, cwd=wt)
+    assert ra.returncode == 0, ra.stdout
+    os.remove(ppath)
+assert sh("git diff -- cdd", cwd=wt).stdout.decode() == patch, "worktree diff changed during evaluation"
 print("demo with change: exit", r_with.returncode, "| without:", r_without.returncode)
 tests = None
 if not a.skip_tests:
